@@ -78,6 +78,9 @@ def run_check(pid: str, tier: str, seed: int, only_defs=None, replay_mode=False)
     if not getattr(mod, "NO_CONVENTIONAL_NAMES", False):
         # generic definitions once more under the parameter names everybody writes ('a, T, COUNT ..): see Corpus.add_conventional_name_twins
         corpus.add_conventional_name_twins(limit=(12 if tier == "thorough" else 6))
+    if not getattr(mod, "NO_SILENT_DERIVES", False):
+        # a few definitions once more with every further derive the model accepts on the same enum: see Corpus.add_silent_derive_twins
+        corpus.add_silent_derive_twins(limit=(10 if tier == "thorough" else 5))
     if only_defs is not None:
         keep = set(only_defs)
         corpus.queries = [q for q in corpus.queries if q[1] in keep]
